@@ -76,7 +76,71 @@ pub fn reporter_name(plan: &Plan) -> &'static str {
     REPORTERS[(plan.writer.stack as usize) % REPORTERS.len()]
 }
 
+/// The reporter as the writer of the whole pipeline, driven by a simulated run of `runner::Basic`.
+fn run_reporter_real(plan: &Rc<Plan>) -> Result<RHistory, String> {
+    let core = SimCore::new(plan.sched.clone());
+    core::install_hooks(&core);
+    let stats = Rc::new(SinkStats::default());
+    let w = &plan.writer;
+    let (sink, buf) = Sink::new(w.sink_seed ^ 0x51, w.short_write_pm, w.eintr_pm, &stats);
+    let which = reporter_name(plan);
+    let (raw, end, payload, st, dg) = match which {
+        "basic" => {
+            let wr = writer::Basic::new(sink, writer::Coloring::Never, w.verbosity);
+            let r = crate::runb::run_filter_run(&core, plan, wr, writer::basic::Cli { verbose: 0, color: writer::Coloring::Never })?;
+            (r.raw, r.end, r.panic_msg, r.stats, r.sched_digest)
+        }
+        "libtest" => {
+            let wr = writer::Libtest::new(sink);
+            let c = writer::libtest::Cli {
+                format: Some(writer::libtest::Format::Json),
+                show_output: w.show_output,
+                report_time: w.report_time.then_some(writer::libtest::ReportTime::Plain),
+                nightly: None,
+            };
+            let r = crate::runb::run_filter_run(&core, plan, wr, c)?;
+            (r.raw, r.end, r.panic_msg, r.stats, r.sched_digest)
+        }
+        "json" => {
+            let r = crate::runb::run_filter_run(&core, plan, writer::Json::new(sink), cli::Empty)?;
+            (r.raw, r.end, r.panic_msg, r.stats, r.sched_digest)
+        }
+        "junit" => {
+            let r = crate::runb::run_filter_run(&core, plan, writer::JUnit::new(sink, w.verbosity.min(1)), writer::junit::Cli { verbose: None })?;
+            (r.raw, r.end, r.panic_msg, r.stats, r.sched_digest)
+        }
+        other => return Err(format!("harness: unknown reporter {other}")),
+    };
+    core::uninstall_hooks();
+    let mut shape = HistoryShape::default();
+    shape.events = raw.len();
+    shape.attempts = raw.iter().filter(|e| matches!(e.k, K::ScStarted)).count();
+    shape.failed_attempts = raw.iter().filter(|e| matches!(e.k, K::StepFailed { .. })).count();
+    shape.skipped_attempts = raw.iter().filter(|e| matches!(e.k, K::StepSkipped { .. })).count();
+    shape.hook_failures = raw.iter().filter(|e| matches!(e.k, K::HookFailed(..))).count();
+    shape.parse_errors = raw.iter().filter(|e| matches!(e.k, K::ParseError(_))).count();
+    let output = String::from_utf8_lossy(&buf.borrow()).into_owned();
+    Ok(RHistory {
+        reporter: format!("{which}"),
+        input: raw,
+        output,
+        end: Some(end),
+        escaped_panic: payload,
+        shape,
+        short_writes: stats.short_writes.get(),
+        interrupts: stats.interrupts.get(),
+        stats: st,
+        sched_digest: dg,
+        verbosity: w.verbosity,
+        show_output: w.show_output,
+        report_time: w.report_time,
+    })
+}
+
 pub fn run_reporter(plan: &Rc<Plan>) -> Result<RHistory, String> {
+    if plan.writer.real_runner {
+        return run_reporter_real(plan);
+    }
     let core = SimCore::new(plan.sched.clone());
     core::install_hooks(&core);
     crate::runa::install_counting_hook();
